@@ -122,7 +122,7 @@ Section Plan.
         rewrite Z2Nat.id by lia. destruct (Z.ltb_spec c (Z.of_nat n)); [|lia]. rewrite andb_true_r. reflexivity. }
       assert (H2 : anc_last h (pb_last pb) c = false).
       { unfold vec_get in Eg2. fold (vget (pb_set pb) c) in Eg2. rewrite P3, vecof_get in Eg2. exact Eg2. }
-      destruct (consume_good h cf aidx Hcf Hmark Haidx (pb_last pb) c Hc P4 H1 H2 (lb_state lb) (w_shared w) b1 s1 P2 Ec) as (G1 & G2 & G3).
+      destruct (consume_good h cf aidx Hcf Hmark Haidx (pb_last pb) c Hc P4 H1 H2 (lb_state lb) (w_shared w) b1 s1 P2 Ec) as (G1 & G2 & G3 & G4).
       split; [apply nodup_aset; auto|]. split; [apply nodup_aset; auto|]. split.
       { intros b'. rewrite !aget_aset. destruct (Z.eqb_spec b b') as [->|Hne]; [|apply W3].
         split; [reflexivity|]. split; [exact G1|]. split; [exact Ev|exact Hc]. }
